@@ -21,6 +21,22 @@ KW = {"func": "func", "x0": "x0", "fprime": "fprime", "args": "args", "approx_gr
       "bounds": "bounds", "m": "m", "factr": "factr", "pgtol": "pgtol", "epsilon": "epsilon",
       "iprint": "iprint", "maxfun": "maxfun", "maxiter": "maxiter", "disp": "disp",
       "callback": "callback", "maxls": "maxls"}
+# keywords the wrapper leaves alone: binding one of them to scipy's own default changes nothing
+DEFAULTS = {"fprime": [None], "approx_grad": [0, False], "epsilon": [1e-8], "iprint": [-1], "maxfun": [15000],
+            "disp": [None], "callback": [None]}
+
+
+def _is_default(kw: str, n: ast.AST) -> bool:
+    if kw not in DEFAULTS:
+        return False
+    try:
+        v = ast.literal_eval(n)
+    except Exception:
+        return False
+    return any(v is d or (d is not None and v is not None and type(v) in (int, float, bool) and v == d)
+               for d in DEFAULTS[kw])
+
+
 PARAM = {"func_grad": "funcGrad", "initial_position": "initialPosition", "bounds": "bounds",
          "conv_crit": "convCrit", "history_size": "historySize", "n_steps": "nSteps", "args": "args"}
 
@@ -106,6 +122,8 @@ def call_record(fn: ast.FunctionDef) -> dict:
     for i, a in enumerate(call.args):
         if isinstance(a, ast.Starred) or i >= len(SIGNATURE):
             raise Unavailable("minimise: starred / too many positional arguments")
+        if _is_default(SIGNATURE[i], a):
+            continue
         bound[SIGNATURE[i]] = _val(a, params, reassigned)
     unknown = False
     for k in call.keywords:
@@ -113,6 +131,8 @@ def call_record(fn: ast.FunctionDef) -> dict:
             raise Unavailable("minimise: **kwargs")
         if k.arg not in KW:
             unknown = True
+            continue
+        if _is_default(k.arg, k.value):
             continue
         bound[k.arg] = _val(k.value, params, reassigned)
     kwargs = [(f".{KW[k]}", bound[k]) for k in SIGNATURE if k in bound]
